@@ -31,6 +31,8 @@ def gen_cases(rng, n, n_adv, n_ship=0):
         cases.append({"seed": rng.randrange(1 << 30), "stream": "friendly", "edge": which})
     for strands in ("++", "--", "++", "+-"):       # a variant on the last base before the break region of a left fusion, planted with the fusion
         cases.append({"seed": rng.randrange(1 << 30), "stream": "friendly", "before_break": strands})
+    for _ in range(3):
+        cases.append({"seed": rng.randrange(1 << 30), "stream": "friendly", "alias_before": True})
     import shipdesc
     for k in range(n_ship):
         cases.append({"seed": rng.randrange(1 << 30), "stream": "shipped", "gene": shipdesc.SMALL[k % len(shipdesc.SMALL)],
@@ -167,6 +169,11 @@ def run_case(case):
                 alleles = [rng.choice(withvar), rng.choice(withvar if rng.random() < 0.6 else names)]
         else:
             kind, alleles = plant(rng, desc)
+            if case.get("alias_before"):
+                normal_ = [a for a, v in desc["alleles"].items() if v["kind"] == "normal"]
+                dels_ = [a for a, v in desc["alleles"].items() if v["kind"] == "deletion"]
+                # a structure that is NOT two default copies, so that skipping the structure stage shows
+                kind, alleles = ("del", [rng.choice(normal_), dels_[0]]) if dels_ and rng.random() < 0.5 else ("three", [rng.choice(normal_) for _ in range(3)])
             if case.get("before_break"):
                 # region labels at a region border decide the copy number there: a variant on the last base before the break region
                 # of a left fusion (a region the fusion does not retain), on both normal copies, next to a fusion hybrid
@@ -189,6 +196,13 @@ def run_case(case):
                                         for s in alleles for p in s.split("#") for v in desc["alleles"][p]["variants"]})}
         want = e2e.planted_variants(desc, build, alleles, info)
         out["want"] = sorted([list(k) + [n] for k, n in want.items()])
+        if case.get("alias_before"):
+            # history: the same database was genotyped before in this process under a profile alias that switches copy-number calling
+            # off (exome); whatever that call did, the call that is judged starts from the database as it is on disk
+            try:
+                genotype(yml, bam, output_file=None, solver="any", **dict(simreads.genotype_kwargs(desc, build, prof), profile_name="exome"))
+            except Exception:     # noqa
+                pass
         with e2e.StageRecorder() as rec:
             try:
                 res = genotype(yml, bam, output_file=None, solver="any", **simreads.genotype_kwargs(desc, build, prof))
